@@ -21,7 +21,7 @@ CLAIMED = {
     'C09': ("windows_spec, word_to_word_spec, ngrams_spec, stream_eq_contexts(_line), no_cross_context, create_document_eq_contexts, tokens_clean, no_overwrite, pattern_constants (regexes regenerated from the source); generated corpora x all option combinations vs the Lean driver, events compared in order.",
             "str.lower / str.strip whitespace tables and re for the three concrete patterns are Python-supplied per input; LF-freeness of tokens checked by the harness only."),
     'C03': ("learn_append, chain_eq_single (any k-way split), dict_continue, dict_chain_two, dict_from_data_array, abs_extend (new labels in later parts), input_preserved_partial; chains of 2-4 real learner calls in one process over every split position and learner mix, compared exactly with the model's single pass; snapshots of every weights argument before/after. Also ndl_continue, ndl_chain_two, data_array_from_dict, dict_roundtrip, and for chains of ARBITRARY length with a different learner per part: chain_any_length, chain_any_length_from, chain_eq_single_call, chain_split_irrelevant (PyndlProofs/Chain.lean); streams: every piece in every documented input form, wh_chain (three Widrow-Hoff flavours).",
-            "partial: non-aliasing of the weights argument inside numpy/xarray/deepcopy cannot be modelled functionally and is decided only by the snapshot comparison of the differential run; Widrow-Hoff chains are tied by the differential run (stream wh_chain vs whModel's single pass), not part of chainRun; constant alpha along a chain; parts are non-empty (an empty part makes ndl.ndl raise IOError: ndl_call_empty_part_raises)."),
+            "partial: non-aliasing of the weights argument inside numpy/xarray/deepcopy cannot be modelled functionally and is decided only by the snapshot comparison of the differential run; Widrow-Hoff chains: C08 wh_chain_any_length / wh_chain_eq_single_call (whModel) + stream wh_chain; constant alpha along a chain; parts are non-empty (an empty part makes ndl.ndl raise IOError: ndl_call_empty_part_raises)."),
     'C07': ("splitOn_joinWith, parse_render (+ slice, general), freq_expand(_decimal), compatible_is_freq_one, forms_agree; event lists over a hostile Unicode alphabet x 4 containers x gzip/plain x compatible, frequency columns 0..5, input forms of ndl.ndl/dict_ndl cross-compared; F11 (CR in a token) reported as KNOWN-FINDING.",
             "gzip and the UTF-8 codec are identity; Python's universal-newline layer is modelled (LF, CR, CRLF); int(frequency) modelled for canonical ASCII-digit literals."),
     'C11': ("stride_perm, strided_sum (any commutative monoid), job_count_is_length, empty_slice_counts_zero, cues_outcomes_exact, n_jobs_irrelevant, word_counts_exact; event and corpus files x n_jobs 1..32 x lower_case vs the driver's direct count.",
@@ -30,7 +30,7 @@ CLAIMED = {
             "xml.etree, gzip and os.walk(followlinks=True) are trusted (the harness writes real gzip XML from the JSON tree); float time arithmetic exactly at the 5 s boundary only for whole-second times."),
     'C05': ("conversion_fault_raises (every completion order of the pool jobs), worker_fault_raises / worker_runs_bounded / worker_never_blocks (every interleaving of the worker threads), dict_fault_raises, policy_rejects_iff, storage_need; fault enumeration on the real code: fault kind x position x learner x n_jobs x chunk size, storage byte budget swept over every chunk-size boundary, every call under a deadline in a killable worker.",
             "partial: which stage detects which fault kind per learner is a table in harness/run_C05.py sampled by the enumeration, not a theorem; wall-clock boundedness is the harness deadline (theorems bound transitions); multiprocessing.Pool re-raises worker exceptions of starmap in the caller; every submitted job eventually completes."),
-    'C08': ("delta_rule_row, whR2R_eq_spec, whB2R_eq_spec, whR2B_eq_spec (each kernel = delta rule on its own row, no other row touched), binary_is_indicator, wh_schedule_independent (every valid OpenMP schedule), wh_driver_eq_spec, single_cue_outcome, wh_table_order; wh.wh in three flavours, numpy and dict_wh vs the Lean whModel, exact values and labels, continuation chains.",
+    'C08': ("delta_rule_row, whR2R_eq_spec, whB2R_eq_spec, whR2B_eq_spec (each kernel = delta rule on its own row, no other row touched), binary_is_indicator, wh_schedule_independent (every valid OpenMP schedule), wh_driver_eq_spec, single_cue_outcome, wh_table_order; wh.wh in three flavours, numpy and dict_wh vs the Lean whModel, exact values and labels, continuation chains. Also wh_*_end_to_end (whModel on names = delta-rule spec), and continuation/chains: wh_*_spec_append, wh_*_continue, wh_chain_any_length, wh_chain_eq_single_call (PyndlProofs/WHChain.lean).",
             "IEEE-754 rounding outside the exact-dyadic domain; xarray broadcasting in the numpy path; OpenMP scheduling under DRF=>SC."),
     'C12': ("act_eq_sum (matrix paths, multiplicity), act_cues_policy, act_missing (KeyError/ignore table), act_dict_eq_sum, paths_agree, events_independent (multi = single process), step_delta; DataArray (n_jobs 1..6) and dict-of-dicts weights vs the Lean model, exact; step_delta also on dict_ndl + activation() alone.",
             "numpy fancy indexing/sum and the shared-memory multiprocessing pool are trusted; exact comparison inside the dyadic domain."),
